@@ -1278,6 +1278,10 @@ func (s *SelectStatement) RewriteFields(m FieldMapper) (*SelectStatement, error)
 			switch expr := d.Expr.(type) {
 			case *VarRef:
 				delete(dimensionSet, expr.Val)
+				// A tag selected by a subquery is a tag of its output: leave it out as well.
+				if fieldSet[expr.Val] == Tag {
+					delete(fieldSet, expr.Val)
+				}
 			}
 		}
 	}
